@@ -527,6 +527,24 @@ Proof.
   rewrite snd_ret, snd_ret.
   rewrite decompress_compress by exact Hlen. rewrite Hde. reflexivity.
 Qed.
+
+(* the class-level round trip: extract_sierra_program first requires every felt < P; the felts of
+   sierra_to_felt252s are field elements as soon as the uncompressed serialization is *)
+Theorem sierra_to_felts sv cv p l fs :
+  version_ok sv = true -> version_ok cv = true ->
+  ser_program keccak long_ids p = Some l -> lenN l < 2 ^ 63 -> Forall (fun v => v < PN) l ->
+  sierra_to keccak long_ids sv cv p = Some fs -> Forall (fun v => v < PN) fs.
+Proof.
+  intros Hsv Hcv Hl Hlen Hall Hto. unfold sierra_to in Hto. rewrite Hl in Hto. cbn [obind] in Hto.
+  injection Hto as <-.
+  destruct sv as [[a1 a2] a3], cv as [[b1 b2] b3]. cbn [version_ok] in Hsv, Hcv.
+  repeat (apply andb_prop in Hsv; let H := fresh "Ha" in destruct Hsv as [Hsv H]).
+  repeat (apply andb_prop in Hcv; let H := fresh "Hb" in destruct Hcv as [Hcv H]).
+  apply N.ltb_lt in Hsv, Ha, Ha0, Hcv, Hb, Hb0. unfold USIZE in *.
+  cbn [ser_version app].
+  repeat (constructor; [rewrite PN_val; lia|]).
+  apply compress_felts; assumption.
+Qed.
 End ProgramProofs.
 
 (* ---------- C14: every allocation of the deserializer is bounded by the remaining input ---------- *)
